@@ -371,23 +371,23 @@ def dihedralParamsBranch (a1 : String) (a2 : String) (a3 : String) (a4 : String)
   let h_2 : Py.Val := t6
   let h_3 : Py.Val := t8
   let oxygen_group : List String := ["O", "S", "Se", "Te", "Po"]
-  if (!(Py.setSubset [el_1, el_2] Mofun.Generated.mainGroupElements)) then
-    pure (0, none)
-  else if (Py.setSubset [h_1, h_2] [(Py.Val.str "3")]) then
+  if (Py.setSubset [h_1, h_2] [(Py.Val.str "3")]) then
     if (Py.setSubset [el_1, el_2] oxygen_group) then
-      pure (1, some ("harmonic", [(1 : Int), (2 : Int)]))
+      pure (0, some ("harmonic", [(1 : Int), (2 : Int)]))
     else
-      pure (1, some ("harmonic", [(1 : Int), (3 : Int)]))
+      pure (0, some ("harmonic", [(1 : Int), (3 : Int)]))
   else if (Py.setSubset [h_1, h_2] [(Py.Val.str "2"), (Py.Val.str "R")]) then
-    pure (2, some ("harmonic", [(-1 : Int), (2 : Int)]))
+    pure (1, some ("harmonic", [(-1 : Int), (2 : Int)]))
   else if (Py.setSubset [h_1, h_2] [(Py.Val.str "2"), (Py.Val.str "R"), (Py.Val.str "3")]) then
     if ((Py.setSubset [h_0, h_1] [(Py.Val.str "2")]) || (Py.setSubset [h_2, h_3] [(Py.Val.str "2")])) then
-      pure (3, some ("harmonic", [(1 : Int), (3 : Int)]))
+      pure (2, some ("harmonic", [(1 : Int), (3 : Int)]))
     else if ((((h_1 == (Py.Val.str "3")) && (List.contains oxygen_group el_1)) && (!(List.contains oxygen_group el_2))) || (((h_2 == (Py.Val.str "3")) && (List.contains oxygen_group el_2)) && (!(List.contains oxygen_group el_1)))) then
-      pure (4, some ("harmonic", [(1 : Int), (2 : Int)]))
+      pure (3, some ("harmonic", [(1 : Int), (2 : Int)]))
     else
-      pure (5, some ("harmonic", [(-1 : Int), (6 : Int)]))
+      pure (4, some ("harmonic", [(-1 : Int), (6 : Int)]))
   else if (List.contains [h_1, h_2] (Py.Val.str "1")) then
+    pure (5, none)
+  else if (!(Py.setSubset [el_1, el_2] Mofun.Generated.mainGroupElements)) then
     pure (6, none)
   else
     none  -- raise
